@@ -13,7 +13,7 @@ from ..facts import (physics_seeds, tensor_seeds, KeyObj, KEYS21, CALC, VOLBASE,
 from ..libsum import lib_func, positional_params
 from ..model import dotted_name, src, body_wo_doc
 from ..report import AnalysisError
-from ..sym import Ev, Obj, Tup, as_sym, RaisedV
+from ..sym import Ev, Obj, Tup, DictV, as_sym, RaisedV
 
 AU = U.Ry / U.bohr ** 3
 V2P = sp.Function("V2P")
@@ -168,24 +168,32 @@ def r_range(ctx, model):
     rv = rets[0][0].value
     ctx.check(isinstance(rv, ast.Name), "returns the checked calculator", model.where(ref, rets[0][0]), expected="return calculator",
               found=src(rv), explanation="returned object is not a local calculator", key="load.return")
-    # the guard
+    # the guard, folded on scenario grids: P(T, V) in GPa with rows T = (cold, hot), columns V = (largest ... smallest);
+    # the smallest volume reaches 100 GPa on the cold isotherm and 120 GPa on the hot one
     dref = f"{QHACALC}.desired_pressure_status"
     d = model.func(dref)
     ctx.fn(dref)
-    guards = raises_with_guards(d)
-    good = []
-    for rz, conds in guards:
-        name = dotted_name(rz.exc.func if isinstance(rz.exc, ast.Call) else rz.exc) if rz.exc is not None else None
-        if name != "ValueError" or len(conds) != 1 or not conds[0][1]:
-            continue
-        t = conds[0][0]
-        if guard_ok(t, d.args.args[0].arg):
-            good.append(src(t))
-    ctx.check(bool(good), "ValueError iff min over T of the last-volume pressure < max requested pressure", model.where(dref, d),
-              expected="if self.p_tv_gpa[:, -1].min() < self.desired_pressures_gpa.max(): raise ValueError",
-              found="; ".join(f"{src(r.exc) if r.exc else 'raise'} under {[('' if p else 'not ') + src(c) for c, p in cs]}" for r, cs in guards)[:300] or "no raise",
-              explanation="the range check no longer refuses (with ValueError, unconditionally on flags) a pressure grid that "
-                          "extends above the pressure reachable at every temperature", key="desired_pressure_status.guard")
+    from ..sym import ArrV
+    I = sp.Integer
+    table = ArrV(0, (2, 3), cells={(0, 0): I(-5), (0, 1): I(40), (0, 2): I(100), (1, 0): I(2), (1, 1): I(50), (1, 2): I(120)})
+    bad = []
+    for top, must_raise in ((60, False), (99, False), (101, True), (110, True), (119, True), (121, True), (500, True)):
+        want = ArrV(0, (4,), cells={(0,): I(0), (1,): I(top) / 3, (2,): 2 * I(top) / 3, (3,): I(top)})
+        obj = Obj(QHACALC, {"p_tv_gpa": table, "desired_pressures_gpa": want, "settings": DictV({"DELTA_P": I(1), "high_verbosity": False, "qha_output": "out"})})
+        ev = Ev(model, {}, {}, ctx=ctx)
+        try:
+            ev.call_def(d, model.mods["cij.core.qha_adapter"], dref, [obj], {})
+            outcome = None
+        except RaisedV as e:
+            outcome = e.exc_name
+        if must_raise and outcome != "ValueError":
+            bad.append(f"grid up to {top} GPa (reachable at every T: 100): {'accepted' if outcome is None else 'raises ' + outcome}, want ValueError")
+        if not must_raise and outcome is not None:
+            bad.append(f"grid up to {top} GPa (reachable at every T: 100): raises {outcome}, want acceptance")
+    ctx.check(not bad, "ValueError iff the largest requested pressure exceeds the pressure reachable at EVERY temperature (7 scenario grids)", model.where(dref, d),
+              expected="raise ValueError iff max(requested) > min over T of P(T, V_smallest)", found="; ".join(bad[:3]) or "7 scenarios as required",
+              explanation="the range check does not refuse (with ValueError, unconditionally on flags) exactly the pressure grids that extend above "
+                          "the pressure reachable at every temperature", key="desired_pressure_status.guard")
     # nobody catches it on the way to the CLI
     chain = [(ref, "desired_pressure_status"), (f"{ADAPTER}.__init__", "_load_qha_calculator"), (f"{CALC}._load", "QHACalculatorAdapter"),
              (f"{CALC}.__init__", "_load"), ("cij.cli.main:run", "Calculator"), ("cij.cli.main:main", "run")]
